@@ -169,7 +169,7 @@ class Models:
         self.froms[("itertools", "count")] = Builtin("count", lambda I, a, k: _unsup("itertools.count"))
         self.froms[("itertools", "product")] = Builtin("product", lambda I, a, k: _unsup("itertools.product"))
         self.froms[("itertools", "chain")] = Builtin("chain", lambda I, a, k: _unsup("itertools.chain"))
-        self.froms[("dataclasses", "dataclass")] = Builtin("dataclass", lambda I, a, k: _unsup("dataclass"))
+        self.froms[("dataclasses", "dataclass")] = Builtin("dataclass", lambda I, a, k: a[0] if a else Builtin("dataclass()", lambda I2, a2, k2: a2[0]))
         self.modules["dataclasses"] = ModelModule("dataclasses", {})
         self.modules["abc"] = ModelModule("abc", {"ABC": "ABC"})
         def new_class(I, args, kw):
@@ -184,9 +184,10 @@ class Models:
             return ClassV(str(name), node, b0.module, list(bases), b0.qualname + "/" + str(name), b0.enclosing)
 
         self.modules["types"] = ModelModule("types", {"new_class": Builtin("types.new_class", new_class)})
-        from . import np_model
+        from . import np_model, sympy_model
 
         np_model.install(self)
+        sympy_model.install(self)
 
     # ---- python builtins ---------------------------------------------------
     def conc_str(self, v):
@@ -459,7 +460,7 @@ class Models:
             s = I.iter_seq(v)
             if isinstance(s, PyList):
                 return PyList(list(s.items))
-            return s
+            return s  # list(seq) of a symbolic sequence: same enumeration (a copy)
         if n == "tuple":
             s = I.iter_seq(args[0]) if args else PyList([])
             if isinstance(s, PyList):
